@@ -314,7 +314,7 @@ def run(acc, tier):
     else:
         engine.pmap(acc, shard_perms, extra=(8,))
         engine.pmap(acc, shard_mesh_small, extra=(2,))
-        engine.pmap(acc, shard_generated, extra=(3000, 6000, 1000))
-        engine.fuzz(acc, "hyp:equivariance", CHECKS, 3000, max_len=2048)
+        engine.pmap(acc, shard_generated, extra=(15000, 30000, 5000))
+        engine.fuzz(acc, "hyp:equivariance", CHECKS, 20000, max_len=2048)
         sub = "all permutations of length <= 8; all mesh patterns of length <= 2"
     META["extra_cov"] = {"exhaustive_subdomain": sub}
